@@ -247,6 +247,18 @@ func init() {
 		c.script = append(c.script, toStr(args[1])...)
 		return nil
 	}
+	V["vConnLive"] = func(ex *Exec, fn *ssa.Function, args []Value) Value {
+		c := nativeIface(&ConnV{blocking: true})
+		return c
+	}
+	V["vConnEOF"] = func(ex *Exec, fn *ssa.Function, args []Value) Value {
+		conn(args[0]).eof = true
+		return nil
+	}
+	V["vGo"] = func(ex *Exec, fn *ssa.Function, args []Value) Value {
+		ex.spawn(args[0], nil)
+		return nil
+	}
 	V["vConnWritten"] = func(ex *Exec, fn *ssa.Function, args []Value) Value {
 		c := conn(args[0])
 		return mkSlice(append([]*Term{}, c.flat...))
